@@ -4,11 +4,8 @@ set -e
 cd "$(dirname "$0")/.."
 mkdir -p evidence .scratch
 # generated sources (unit tables) are regenerated from /repo's current tree
-if [ -x tools/regen.sh ]; then sh tools/regen.sh || true; fi
-sh tools/gen_coqproject.sh
-cd coq
-timeout 3000 make -k -j16 > ../.scratch/setup_build.log 2>&1 || { tail -40 ../.scratch/setup_build.log; echo "setup: some Coq files failed to build (checks report which)"; }
-cd ..
+if [ -x tools/regen.sh ] || [ -f tools/regen.sh ]; then sh tools/regen.sh || true; fi
+python3 tools/build.py -j16 all > .scratch/setup_build.log 2>&1 || { tail -60 .scratch/setup_build.log; echo "setup: some Coq files failed to build (checks report which)"; }
 python3 - <<'PY'
 import sys
 sys.path.insert(0, 'harness')
